@@ -541,11 +541,12 @@ namespace fsw
             int s = st.actor % 3;
             int pi = partner(s, st.c);
             FS_VARIANTS("count_ch", "self_pos_count", "self_pos", "ptr_count", "ptr", "ilist", "range", "self", "self_move",
-                        "string", "string_pos_count", "string_pos", "ptr_count_alias", "ptr_alias", "input_range");
+                        "string", "string_pos_count", "string_pos", "ptr_count_alias", "ptr_alias", "input_range", "count_own_char");
+            if (v == 15 && (!alias_on || model[s].empty())) v = 0;
             if (v == 12 && !alias_on) v = 3;
             if (v == 13 && !alias_on) v = 4;
             bool uses_self = v == 1 || v == 2 || v == 7 || v == 8;
-            FS_SCOPE("assign", (pi == s && uses_self) || v == 12 || v == 13);
+            FS_SCOPE("assign", (pi == s && uses_self) || v == 12 || v == 13 || v == 15);
             size_t plen = model[pi].size();
             size_t slen = model[s].size();
             size_t ak = pos_in(st.c >> 11, slen);
@@ -578,7 +579,8 @@ namespace fsw
                 case 11: t.assign(arg, apos); break;
                 case 12: t.assign(static_cast<const CT*>(t.data()) + ak, an); break;
                 case 13: t.assign(static_cast<const CT*>(t.c_str()) + ak); break;
-                default: { SPState<CT> sp{arg.data(), 0, arg.size()}; last_add = n; SIM_PROBE("single_pass_input_range"); t.assign(SinglePass<CT>(&sp), SinglePass<CT>()); } break;
+                case 14: { SPState<CT> sp{arg.data(), 0, arg.size()}; last_add = n; SIM_PROBE("single_pass_input_range"); t.assign(SinglePass<CT>(&sp), SinglePass<CT>()); } break;
+                default: last_add = n; t.assign(n, t[slen ? static_cast<size_t>((st.c >> 30) % slen) : 0]); break;
                 }
                 return Ret();
             }, true);
@@ -711,8 +713,9 @@ namespace fsw
         void op_resize(const Step& st)
         {
             int s = st.actor % 3;
-            FS_VARIANTS("n", "n_ch");
-            FS_SCOPE("resize", false);
+            FS_VARIANTS("n", "n_ch", "n_own_char");
+            if (v == 2 && (!alias_on || model[s].empty())) v = 1;
+            FS_SCOPE("resize", v == 2);
             size_t len = model[s].size();
             size_t n = cnt_add(st.a, N);
             CT ch = mkch(st.b, LAYOUT != L_STRLEN);
@@ -722,6 +725,7 @@ namespace fsw
                 auto& t = side.tgt();
                 last_add = n > len ? n - len : 0;
                 if (v == 1) t.resize(n, ch);
+                else if (v == 2) t.resize(n, t[static_cast<size_t>((st.c >> 30) % len)]);
                 else if (side.is_model) t.resize(n, CT(' '));   // documented: resize(n) pads with ' '
                 else t.resize(n);
                 return Ret();
@@ -747,16 +751,18 @@ namespace fsw
             int pi = partner(s, st.c);
             FS_VARIANTS("idx_count_ch", "idx_ptr", "idx_ptr_count", "idx_self", "idx_self_idx_count", "idx_self_idx", "idx_string",
                         "idx_string_idx_count", "idx_string_idx", "it_ch", "it_count_ch", "it_ilist", "it_range",
-                        "idx_ptr_count_alias", "idx_ptr_alias", "it_input_range");
+                        "idx_ptr_count_alias", "idx_ptr_alias", "it_input_range", "idx_count_own_char", "it_own_char", "it_count_own_char");
             if (v == 13 && !alias_on) v = 2;
             if (v == 14 && !alias_on) v = 1;
+            if (v >= 16 && (!alias_on || model[s].empty())) v = (v == 16 ? 0 : (v == 17 ? 9 : 10));
             bool uses_self = v >= 3 && v <= 5;
-            FS_SCOPE("insert", (pi == s && uses_self) || v == 13 || v == 14);
+            FS_SCOPE("insert", (pi == s && uses_self) || v == 13 || v == 14 || v >= 16);
             size_t len = model[s].size(), room = N - std::min(len, N);
             size_t ak = pos_in(st.c >> 11, len);                                  // own characters [ak, ak+an) as the source
             size_t an = std::min(cnt_clamp(st.c >> 23, len - ak), len - ak);
-            size_t idx = ((v >= 9 && v <= 12) || v == 15) ? pos_in(st.a, len) : pos_any(st.a, len);
+            size_t idx = ((v >= 9 && v <= 12) || v == 15 || v >= 17) ? pos_in(st.a, len) : pos_any(st.a, len);
             size_t n = cnt_add(st.b, room);
+            size_t ck = len ? static_cast<size_t>((st.c >> 30) % len) : 0;       // the fill character is the string's own character ck, passed as it is
             size_t plen = model[pi].size();
             size_t ppos = pos_any(st.b >> 9, plen);
             size_t pcnt = (mode == M_C02) ? cnt_clamp(st.b >> 13, plen - std::min(ppos, plen)) : std::min(cnt_clamp(st.b >> 13, plen - std::min(ppos, plen)), room);
@@ -788,8 +794,11 @@ namespace fsw
                 case 12: { last_add = n; auto it = t.insert(t.cbegin() + di, lst.begin(), lst.end()); return side.rv(static_cast<uint64_t>(it - t.begin())); }
                 case 13: last_add = an; t.insert(idx, static_cast<const CT*>(t.data()) + ak, an); break;
                 case 14: last_add = len - ak; t.insert(idx, static_cast<const CT*>(t.c_str()) + ak); break;
-                default: { SPState<CT> sp{arg.data(), 0, arg.size()}; last_add = n; SIM_PROBE("single_pass_input_range");
+                case 15: { SPState<CT> sp{arg.data(), 0, arg.size()}; last_add = n; SIM_PROBE("single_pass_input_range");
                            auto it = t.insert(t.cbegin() + di, SinglePass<CT>(&sp), SinglePass<CT>()); return side.rv(static_cast<uint64_t>(it - t.begin())); }
+                case 16: last_add = n; t.insert(idx, n, t[ck]); break;
+                case 17: { last_add = 1; auto it = t.insert(t.cbegin() + di, t[ck]); return side.rv(static_cast<uint64_t>(it - t.begin())); }
+                default: { last_add = n; auto it = t.insert(t.cbegin() + di, n, t[ck]); return side.rv(static_cast<uint64_t>(it - t.begin())); }
                 }
                 return Ret();
             }, true);
@@ -827,11 +836,12 @@ namespace fsw
             int s = st.actor % 3;
             int pi = partner(s, st.c);
             FS_VARIANTS("count_ch", "self", "self_pos_count", "self_pos", "string", "string_pos_count", "string_pos", "ptr_count", "ptr",
-                        "ilist", "range", "ptr_count_alias", "ptr_alias", "input_range");
+                        "ilist", "range", "ptr_count_alias", "ptr_alias", "input_range", "count_own_char");
+            if (v == 14 && (!alias_on || model[s].empty())) v = 0;
             if (v == 11 && !alias_on) v = 7;
             if (v == 12 && !alias_on) v = 8;
             bool uses_self = v >= 1 && v <= 3;
-            FS_SCOPE("append", (pi == s && uses_self) || v == 11 || v == 12);
+            FS_SCOPE("append", (pi == s && uses_self) || v == 11 || v == 12 || v == 14);
             size_t len = model[s].size(), room = N - std::min(len, N);
             size_t ak = pos_in(st.c >> 11, len);
             size_t an = std::min(cnt_clamp(st.c >> 23, len - ak), len - ak);
@@ -863,7 +873,8 @@ namespace fsw
                 case 10: last_add = n; t.append(lst.begin(), lst.end()); break;
                 case 11: last_add = an; t.append(static_cast<const CT*>(t.data()) + ak, an); break;
                 case 12: last_add = len - ak; t.append(static_cast<const CT*>(t.c_str()) + ak); break;
-                default: { SPState<CT> sp{arg.data(), 0, arg.size()}; last_add = n; SIM_PROBE("single_pass_input_range"); t.append(SinglePass<CT>(&sp), SinglePass<CT>()); } break;
+                case 13: { SPState<CT> sp{arg.data(), 0, arg.size()}; last_add = n; SIM_PROBE("single_pass_input_range"); t.append(SinglePass<CT>(&sp), SinglePass<CT>()); } break;
+                default: last_add = n; t.append(n, t[len ? static_cast<size_t>((st.c >> 30) % len) : 0]); break;
                 }
                 return Ret();
             }, true);
@@ -921,8 +932,9 @@ namespace fsw
             int s = st.actor % 3;
             int pi = partner(s, st.c);
             FS_VARIANTS("self", "pos_count_self", "pos_count_self_pos_count", "pos_count_self_pos", "string", "pos_count_string",
-                        "pos_count_string_pos_count", "pos_count_string_pos", "ptr", "pos_count_ptr", "pos_count_ptr_count");
-            FS_SCOPE("compare", pi == s && v <= 3);
+                        "pos_count_string_pos_count", "pos_count_string_pos", "ptr", "pos_count_ptr", "pos_count_ptr_count", "own_ptr", "pos_count_own_ptr");
+            if (v >= 11 && !alias_on) v -= 3;
+            FS_SCOPE("compare", (pi == s && v <= 3) || v >= 11);
             size_t len = model[s].size();
             size_t p1 = pos_any(st.a, len), c1 = cnt_clamp(st.a >> 11, len - std::min(p1, len));
             size_t plen = model[pi].size();
@@ -946,7 +958,9 @@ namespace fsw
                 case 7: r = t.compare(p1, c1, arg, ap); break;
                 case 8: r = t.compare(static_cast<const CT*>(hp.get())); break;
                 case 9: r = t.compare(p1, c1, static_cast<const CT*>(hp.get())); break;
-                default: r = t.compare(p1, c1, static_cast<const CT*>(hp.get()), pc); break;
+                case 10: r = t.compare(p1, c1, static_cast<const CT*>(hp.get()), pc); break;
+                case 11: r = t.compare(t.c_str()); break;                       // its own characters up to the first NUL
+                default: r = t.compare(p1, c1, t.c_str() + std::min(p1, t.size())); break;
                 }
                 return side.rv(sgn(r));
             }, false);
@@ -959,11 +973,13 @@ namespace fsw
             FS_VARIANTS("pos_count_self", "it_it_self", "pos_count_self_pos_count", "pos_count_self_pos", "pos_count_string", "it_it_string",
                         "pos_count_string_pos_count", "pos_count_string_pos", "pos_count_ptr_count", "it_it_ptr_count", "pos_count_ptr",
                         "it_it_ptr", "pos_count_count_ch", "it_it_count_ch", "it_it_ilist", "it_it_range",
-                        "pos_count_ptr_count_alias", "it_it_ptr_count_alias", "pos_count_ptr_alias", "it_it_ptr_alias", "it_it_input_range");
+                        "pos_count_ptr_count_alias", "it_it_ptr_count_alias", "pos_count_ptr_alias", "it_it_ptr_alias", "it_it_input_range",
+                        "pos_count_count_own_char", "it_it_count_own_char");
+            if (v >= 21 && (!alias_on || model[s].empty())) v -= 9;
             if (v >= 16 && v <= 19 && !alias_on) v -= 8;
             bool uses_self = v <= 3;
-            bool its = v == 1 || v == 5 || v == 9 || v == 11 || (v >= 13 && v <= 15) || v == 17 || v == 19 || v == 20;
-            FS_SCOPE("replace", (pi == s && uses_self) || (v >= 16 && v <= 19));
+            bool its = v == 1 || v == 5 || v == 9 || v == 11 || (v >= 13 && v <= 15) || v == 17 || v == 19 || v == 20 || v == 22;
+            FS_SCOPE("replace", (pi == s && uses_self) || (v >= 16 && v <= 19) || v >= 21);
             size_t len = model[s].size();
             size_t ak = pos_in(st.c >> 21, len);
             size_t an = std::min(cnt_clamp(st.c >> 33, len - ak), len - ak);
@@ -1015,7 +1031,9 @@ namespace fsw
                 case 17: last_add = an; t.replace(f, l, static_cast<const CT*>(t.data()) + ak, an); break;
                 case 18: last_add = len - ak; t.replace(pos, cnt, static_cast<const CT*>(t.c_str()) + ak); break;
                 case 19: last_add = len - ak; t.replace(f, l, static_cast<const CT*>(t.c_str()) + ak); break;
-                default: { SPState<CT> sp{arg.data(), 0, arg.size()}; SIM_PROBE("single_pass_input_range"); t.replace(f, l, SinglePass<CT>(&sp), SinglePass<CT>()); } break;
+                case 20: { SPState<CT> sp{arg.data(), 0, arg.size()}; SIM_PROBE("single_pass_input_range"); t.replace(f, l, SinglePass<CT>(&sp), SinglePass<CT>()); } break;
+                case 21: t.replace(pos, cnt, n, t[len ? static_cast<size_t>((st.c >> 30) % len) : 0]); break;
+                default: t.replace(f, l, n, t[len ? static_cast<size_t>((st.c >> 30) % len) : 0]); break;
                 }
                 return Ret();
             }, true);
@@ -1112,8 +1130,11 @@ namespace fsw
             FS_VARIANTS("eq_fs_fs", "ne_fs_fs", "lt_fs_fs", "le_fs_fs", "gt_fs_fs", "ge_fs_fs", "eq_fs_ptr", "ne_fs_ptr", "lt_fs_ptr", "le_fs_ptr",
                         "gt_fs_ptr", "ge_fs_ptr", "eq_ptr_fs", "ne_ptr_fs", "lt_ptr_fs", "le_ptr_fs", "gt_ptr_fs", "ge_ptr_fs", "eq_fs_string",
                         "ne_fs_string", "lt_fs_string", "le_fs_string", "gt_fs_string", "ge_fs_string", "eq_string_fs", "ne_string_fs",
-                        "lt_string_fs", "le_string_fs", "gt_string_fs", "ge_string_fs");
-            FS_SCOPE("relop", pi == s && v < 6);
+                        "lt_string_fs", "le_string_fs", "gt_string_fs", "ge_string_fs",
+                        "eq_fs_ownptr", "ne_fs_ownptr", "lt_fs_ownptr", "le_fs_ownptr", "gt_fs_ownptr", "ge_fs_ownptr",
+                        "eq_ownptr_fs", "ne_ownptr_fs", "lt_ownptr_fs", "le_ownptr_fs", "gt_ownptr_fs", "ge_ownptr_fs");
+            if (v >= 30 && !alias_on) v -= 24;
+            FS_SCOPE("relop", (pi == s && v < 6) || v >= 30);
             unsigned o = v % 6, shape = v / 6;
             Str arg = similar(s, st.b, false);
             auto hp = heap(arg, true);
@@ -1127,7 +1148,9 @@ namespace fsw
                 case 1: r = rel(o, t, p); break;
                 case 2: r = rel(o, p, t); break;
                 case 3: r = rel(o, t, arg); break;
-                default: r = rel(o, arg, t); break;
+                case 4: r = rel(o, arg, t); break;
+                case 5: r = rel(o, t, t.c_str()); break;
+                default: r = rel(o, t.c_str(), t); break;
                 }
                 return side.rv(r ? 1 : 0);
             }, false);
